@@ -23,6 +23,10 @@ def purity_frame(index, fkeys, name):
                                                   finite='n/a', unbounded='n/a', backend='ast scan', time_s=0.0, instances=1, model='', reason=str(ex))
             continue
         bad = []
+        for d in getattr(node, 'decorator_list', []):
+            txt = ast.unparse(d)
+            if any(w in txt for w in ('lru_cache', 'functools.cache', 'cached_property', 'memo')):
+                bad.append(f'line {d.lineno}: decorator @{txt} memoises by ==/hash of the arguments (tasks that are == but differ in value types would share a key, and the key would depend on construction history)')
         for n in ast.walk(node):
             if isinstance(n, ast.Call) and isinstance(n.func, ast.Name) and n.func.id in BANNED_CALLS:
                 bad.append(f'line {n.lineno}: call of {n.func.id}()')
@@ -34,8 +38,18 @@ def purity_frame(index, fkeys, name):
                     bad.append(f'line {n.lineno}: use of {ast.unparse(n)}')
             if isinstance(n, (ast.Set, ast.SetComp)):
                 bad.append(f'line {n.lineno}: set display/comprehension (iteration order depends on the hash seed)')
-            if isinstance(n, ast.Call) and isinstance(n.func, ast.Attribute) and n.func.attr == 'dumps' and any(k.arg == 'sort_keys' for k in n.keywords) and False:
-                pass
+            if isinstance(n, ast.Call) and isinstance(n.func, ast.Attribute) and isinstance(n.func.value, ast.Name) and n.func.value.id == 'self' \
+                    and n.func.attr.startswith('_') and fkey.split('.')[-1] == 'cache_key':
+                # a private helper introduced on the key's call graph: scanned as well
+                cls_key = fkey.rsplit('.', 1)[0]
+                try:
+                    hn, _, _, _ = index.find(f'{cls_key}.{n.func.attr}')
+                    for d in hn.decorator_list:
+                        txt = ast.unparse(d)
+                        if any(w in txt for w in ('lru_cache', 'functools.cache', 'memo')):
+                            bad.append(f'line {d.lineno}: helper {n.func.attr} is memoised with @{txt}')
+                except KeyError:
+                    pass
         out[f'syntactic:{name}/{fkey}'] = dict(
             name=f'syntactic:{name}/{fkey}', function=fkey, kind='syntactic', serves=[], status='refuted' if bad else 'discharged',
             finite='n/a', unbounded='n/a', backend='ast scan of the current source', time_s=0.0, instances=1,
